@@ -12,6 +12,7 @@
             literal of mode m for True/False/None. *)
 From Coq Require Import ZArith List Bool Sorting.Sorted Sorting.Permutation.
 From AK Require Import gen.C11_Consts C11.Model C11.Reader C11.LemmasBase C11.LemmasLex C11.LemmasWrap C11.Lemmas.
+From AK Require Import C11.Palette C11.LemmasPalette.
 Import ListNotations.
 
 (* the constants read from ak/ppobj.py: JSON mode emits true/false/null, Python
@@ -128,3 +129,43 @@ Example ex_wrapped_and_read :
   read (plain_text Py ex_value) = Some (tree_of Py ex_value).
 Proof. vm_compute. repeat split. Qed.
 Print Assumptions ex_wrapped_and_read.
+
+(* ---- "the no-colour output" does not depend on how it was asked for (C11/Palette.v:
+   PaletteUser._mk_palette + the construction of a palette) ----
+   no_color=True wins over every other public argument: whether palette= is omitted,
+   a class or a ready (coloured) object, whatever colors_conf= and the global colours
+   configuration are, the palette the printer works with is plain whenever the call is
+   accepted at all.  (That a plain palette makes str() of a line its plain text is the
+   trusted CHText part, checked by the correspondence on every configuration.) *)
+Theorem no_color_wins : forall c p,
+  c_nc c = true -> mk_palette_plain c = Some p -> p = true.
+Proof. exact no_color_wins_l. Qed.
+Print Assumptions no_color_wins.
+
+(* ... the call is rejected exactly for a ready object together with colors_conf= *)
+Theorem rejected_iff : forall c,
+  mk_palette_plain c = None <->
+  (exists onc oconf p, c_pal c = PalObj onc oconf /\ c_conf c = ConfGiven p).
+Proof. exact rejected_iff_l. Qed.
+Print Assumptions rejected_iff.
+
+(* ... and a no_color configuration (colors_conf=, or the global one when none is
+   given) gives the plain palette for a palette class / the default class, with or
+   without no_color=True *)
+Theorem no_color_conf_plain : forall c,
+  (c_pal c = PalNone \/ c_pal c = PalClass) ->
+  (c_conf c = ConfGiven true \/ (c_conf c = ConfNone /\ c_glob_plain c = true)) ->
+  mk_palette_plain c = Some true.
+Proof. exact no_color_conf_plain_l. Qed.
+Print Assumptions no_color_conf_plain.
+
+(* non-vacuity: a coloured ready object is used as it is without no_color (colours),
+   and is replaced by the plain palette with no_color=True; class + coloured
+   colors_conf + no_color=True is accepted and plain *)
+Example ex_no_color_wins :
+  mk_palette_plain (Cfg (PalObj false ConfNone) false ConfNone false) = Some false /\
+  mk_palette_plain (Cfg (PalObj false (ConfGiven false)) true ConfNone false) = Some true /\
+  mk_palette_plain (Cfg PalClass true (ConfGiven false) false) = Some true /\
+  mk_palette_plain (Cfg PalClass false (ConfGiven false) true) = Some false.
+Proof. vm_compute. repeat split. Qed.
+Print Assumptions ex_no_color_wins.
